@@ -350,8 +350,18 @@ Definition e2e_restart (w : world) : world :=
   mkW (fold_left reclaim_pppoe (w_pp_all w) (fold_left reclaim_ipoe (w_ipoe w) new_registry))
       (w_ipoe w) (w_pp_key w) (w_pp_all w) (w_next w).
 (* the recorded defect of the ipoe restore path: sessions of the tuples in [skip] (half-established when
-   checkpointed, or whose dataplane restore failed) are put back into the session tables without a claim *)
-Definition e2e_restart_skipping (skip : list key) (w : world) : world :=
-  mkW (fold_left reclaim_pppoe (w_pp_all w)
-         (fold_left reclaim_ipoe (filter (fun e => negb (existsb (key_eqb (fst e)) skip)) (w_ipoe w)) new_registry))
-      (w_ipoe w) (w_pp_key w) (w_pp_all w) (w_next w).
+   checkpointed, or whose dataplane restore failed) are put back into the session tables without a claim.
+   Such a world can hold two sessions on one tuple, so the re-claims of a LATER restart do displace and
+   evict: here all re-claims happen first (ipoe, then pppoe), then the published events are delivered. *)
+Definition reclaim_ipoe_ev (acc : registry * list (bytes * key)) (e : key * owner) : registry * list (bytes * key) :=
+  let (r', evs) := component_claim proto_ipoe (fst acc) (fst e) (o_sid (snd e)) in
+  (r', snd acc ++ map (fun s => (s, fst e)) evs).
+Definition reclaim_pppoe_ev (acc : registry * list (bytes * key)) (e : key * bytes) : registry * list (bytes * key) :=
+  let (r', evs) := component_claim_any proto_pppoe (fst acc) (fst e) (snd e) in
+  (r', snd acc ++ map (fun s => (s, fst e)) evs).
+Definition e2e_restart_skipping (v : variant) (skip : list key) (w : world) : world :=
+  let acc := fold_left reclaim_pppoe_ev (w_pp_all w)
+               (fold_left reclaim_ipoe_ev (filter (fun e => negb (existsb (key_eqb (fst e)) skip)) (w_ipoe w))
+                          (new_registry, [])) in
+  fold_left (fun w ev => pppoe_terminate v (ipoe_terminate v w ev) ev) (snd acc)
+            (mkW (fst acc) (w_ipoe w) (w_pp_key w) (w_pp_all w) (w_next w)).
